@@ -41,7 +41,7 @@ def main():
         print("cannot create scratch worktree:", out)
         return 2
     results = {}
-    respath = os.path.join(sdir, "RESULTS.json")
+    respath = os.environ.get("SEEDTEST_RESULTS", os.path.join(sdir, "RESULTS.json"))      # other seeds: write elsewhere
     if os.path.exists(respath):
         results = json.load(open(respath))
     for d in dirs:
@@ -73,7 +73,7 @@ def main():
                 rc, out = sh(f"./check {cp} --tier {tier}", cwd=ROOT,
                              env=dict(os.environ, VERIF_SEED=os.environ.get("VERIF_SEED", "0"),
                                       VERIF_REPO=REPO,
-                                      VERIF_EVIDENCE_DIR=f"/tmp/seedtest_evidence_{os.getpid()}", VERIF_REPLAY_DIR=os.path.join(d, "replays")))
+                                      VERIF_EVIDENCE_DIR=f"/tmp/seedtest_evidence_{os.getpid()}", VERIF_REPLAY_DIR=os.environ.get("SEEDTEST_REPLAYS", os.path.join(d, "replays"))))
                 res["check_rc"][cp] = rc
                 vl = [line for line in out.splitlines() if line.startswith("VIOLATION")]
                 res["violation_lines"] += vl[:3]
